@@ -103,7 +103,7 @@ def e_step(data, means):
     )
 
 
-def m_step(stats, n_samples):
+def m_step(stats, n_samples, previous_means=None):
     """Computes the cluster centers and average minimum distance.
 
     Parameters
@@ -113,6 +113,9 @@ def m_step(stats, n_samples):
         on each chunk of data.
     n_samples : int
         The total number of samples.
+    previous_means : array-like, shape (n_clusters, n_features), optional
+        The cluster centers the statistics were computed with. A cluster that
+        received no sample keeps its previous center (zero if not given).
 
     Returns
     -------
@@ -134,7 +137,15 @@ def m_step(stats, n_samples):
         average_min_distance += average_ * np.sum(zeroeth_)
     average_min_distance /= n_samples
 
-    means = first_order_statistics / zeroeth_order_statistics[:, None]
+    # A cluster without any sample would divide by zero (NaN center, which then
+    # attracts every sample because NaN wins `argmin`)
+    empty = zeroeth_order_statistics == 0
+    means = (
+        first_order_statistics
+        / np.where(empty, 1, zeroeth_order_statistics)[:, None]
+    )
+    if previous_means is not None and empty.any():
+        means[empty] = np.asarray(previous_means)[empty]
     return means, average_min_distance
 
 
@@ -169,8 +180,10 @@ def reduce_indices_means_vars(stats):
     n_clusters = len(means_sum)
     weights_count = np.bincount(closest_centroid_indices, minlength=n_clusters)
     weights = weights_count / weights_count.sum()
-    means = means_sum / weights_count[:, None]
-    variances = (variances_sum / weights_count[:, None]) - (means**2)
+    # An empty cluster has weight zero; its variance is reported as zero
+    counts = np.where(weights_count == 0, 1, weights_count)
+    means = means_sum / counts[:, None]
+    variances = (variances_sum / counts[:, None]) - (means**2)
 
     return variances, weights
 
@@ -353,12 +366,12 @@ class KMeansMachine(BaseEstimator):
                     dask.delayed(e_step)(xx, means=self.centroids_) for xx in X
                 ]
                 self.centroids_, self.average_min_distance = dask.compute(
-                    dask.delayed(m_step)(stats, n_samples)
+                    dask.delayed(m_step)(stats, n_samples, self.centroids_)
                 )[0]
             else:
                 stats = [e_step(X, means=self.centroids_)]
                 self.centroids_, self.average_min_distance = m_step(
-                    stats, n_samples
+                    stats, n_samples, self.centroids_
                 )
 
             distance = self.average_min_distance
